@@ -743,6 +743,29 @@ func ruleHashInput(c *RC) *RuleResult {
 					r.fail(fn.Name+"/stale-hash", c.Prog.Pos(fn.Decl), "setter changes a hashed field but leaves the cached hash")
 				}
 			}
+			// a memo on the wrapper is sound only if nothing it hashes can change behind its back: the body is held by
+			// reference, so a body type with a mutating method (a pointer-receiver method other than the decoder that
+			// writes a receiver field, e.g. the recovery message's AddPayload) makes the memo go stale — the hash then no
+			// longer follows the content
+			for _, fn := range c.Prog.sortedFuncs() {
+				if fn.Pkg.PkgPath != consPath || fn.Recv == "" || fn.Recv == "Payload" || fn.RecvVar == nil {
+					continue
+				}
+				if _, isPtr := fn.RecvVar.Type().(*types.Pointer); !isPtr {
+					continue
+				}
+				short := strings.TrimPrefix(fn.Name, fn.Recv+".")
+				if short == "DecodeBinary" || c.Prog.ByName["internal/consensus:"+fn.Recv+".EncodeBinary"] == nil || !c.isBodyType(fn.Recv) {
+					continue
+				}
+				for _, s := range c.A.FnSites[fn] {
+					if s.Kind == "write" && strings.HasPrefix(s.Loc, "recv.") {
+						r.Sites++
+						r.fail("Payload.Hash/memo-with-mutable-body:"+fn.Name, c.Prog.Pos(s.Node), "Payload.Hash memoises its result, but the body it hashes is held by reference and "+fn.Name+" changes it after the payload was built: the cached hash no longer follows the content")
+						break
+					}
+				}
+			}
 		}
 	}
 	// blocks
@@ -1125,4 +1148,35 @@ func exprText(e ast.Expr) string {
 		return exprText(x.X)
 	}
 	return "?"
+}
+
+// isBodyType: the named type tn of the reference payload package is a message body — a pointer to it implements the
+// interface returned by one of the wrapper's Get* accessors (ChangeView, PrepareRequest, …, RecoveryMessage).
+func (c *RC) isBodyType(tn string) bool {
+	pkg := c.Prog.Pkgs["internal/consensus"]
+	if pkg == nil {
+		return false
+	}
+	obj, _ := pkg.Types.Scope().Lookup(tn).(*types.TypeName)
+	if obj == nil {
+		return false
+	}
+	pt := types.NewPointer(obj.Type())
+	for _, fn := range c.Prog.sortedFuncs() {
+		if fn.Pkg.PkgPath != consPath || fn.Recv == "" || fn.Recv == tn {
+			continue
+		}
+		short := strings.TrimPrefix(fn.Name, fn.Recv+".")
+		if !strings.HasPrefix(short, "Get") || len(fn.Params) != 0 {
+			continue
+		}
+		sig := fn.Obj.Type().(*types.Signature)
+		if sig.Results().Len() != 1 {
+			continue
+		}
+		if it, ok := sig.Results().At(0).Type().Underlying().(*types.Interface); ok && it.NumMethods() > 0 && types.Implements(pt, it) {
+			return true
+		}
+	}
+	return false
 }
